@@ -33,3 +33,13 @@ impl<'a> ValueRef<'a> {
 
 /// either::Either
 pub enum Either<L, R> { Left(L), Right(R) }
+
+/// simplicity::Value (owned): opaque; its view is the mathematical value.  Constructors ASSUMED (A-types): each builds the
+/// value it is named after; the type arguments of left / right / none only fix the type of the absent side.
+#[verifier::external_body]
+pub struct SimValue { _p: u8 }
+impl View for SimValue { type V = Val; uninterp spec fn view(&self) -> Val; }
+impl Clone for SimValue {
+    #[verifier::external_body]
+    fn clone(&self) -> (r: Self) ensures r == *self { unimplemented!() }
+}
